@@ -130,6 +130,22 @@ Section Comparators.
     && ordered_by (fun g h => less (map snd ks) (head_vals ks inp g) (head_vals ks inp h)) gs
     && check_stable ks inp out.
 
+  (* What sort.SliceStable guarantees WHATEVER the callback (natural-order keys: the callback need not be a strict weak
+     order, C09_natural_transitive_refuted): on at most 20 elements it is a plain insertion sort (sort.stable: blockSize 20),
+     which never leaves an element strictly less than its immediate predecessor. *)
+  Fixpoint adjacent_by {A} (lt : A -> A -> bool) (l : list A) : bool :=
+    match l with
+    | x :: t => match t with y :: _ => negb (lt y x) | [] => true end && adjacent_by lt t
+    | [] => true
+    end.
+  Definition check_sort_adj (ks : list (bytes * sflag)) (inp out : list record) : bool :=
+    let keyf := sort_keyf ks in
+    let gs := dkeys keyf out in
+    records_eqb out (sort_output ks inp gs)
+    && (List.length gs =? List.length (dkeys keyf inp))%nat
+    && forallb (fun g => mem g gs) (dkeys keyf inp)
+    && adjacent_by (fun g h => less (map snd ks) (head_vals ks inp g) (head_vals ks inp h)) gs.
+
   (* DSL sort(array, flags | function): elements are single-field records (name, value); equal-comparing elements may
      come out in any order, so there is no grouping: permutation + no later element strictly less than an earlier one *)
   Definition field_val (name : bytes) (r : record) : bytes := match get name r with Some v => v | None => [] end.
